@@ -207,6 +207,11 @@ func TestC16_MonitorModel(t *testing.T) {
 			}
 		}
 		if strings.HasPrefix(end, "before-ready") {
+			// events may already sit in the subscription's channel: "if the publisher shuts down before
+			// becoming ready no callback runs at all" - they stay undelivered
+			for i, n := 0, rapid.IntRange(0, 3).Draw(t, "queuedBeforeReady"); i < n; i++ {
+				publish("queued before readiness")
+			}
 			if end == "before-ready-terminate" {
 				p.terminate()
 			} else {
